@@ -616,6 +616,94 @@ def feed_tie(ctx, ui):
     return {"calls": len(rows), "distribution": dist}
 
 
+# ---------------------------------------------------------------- per-value coercion (_to_numpy_input vs OrtCoerce.coerce)
+_NPDT = {"float16": "F16", "float32": "F32", "float64": "F64", "int8": "I8", "int16": "I16", "int32": "I32", "int64": "I64",
+         "uint8": "U8", "bool": "NBool", "complex64": "C64", "complex128": "C128"}
+
+
+class _Meta2:
+    def __init__(self, ty, shape):
+        self.name, self.type, self.shape = "in_0", ty, shape
+
+
+def coerce_tie(ctx, ui):
+    """EXHAUSTIVE over the finite decision domain: 12 array dtypes x 17 declared types x shape situations x 2 ranks"""
+    arr_dts = list(_NPDT) + ["uint16"]
+    tys = [None, 5, "float", "tensor(float)", "tensor(double)", "tensor(float16)", "tensor(bf16)", "tensor(bfloat16)", "tensor(int64)",
+           "tensor(int32)", "tensor(int16)", "tensor(int8)", "tensor(uint8)", "tensor(bool)", "tensor(uint16)", "tensor(string)", "tensor()", "tensor(float"]
+    rows, problems = [], []
+    dist = {}
+    for ndim, base_shape in ((2, (2, 3)), (0, ())):
+        shapes = [None, [], list(base_shape), list(base_shape) + [2], list(base_shape) + [3], list(base_shape) + ["B"], list(base_shape) + [None],
+                  list(base_shape) + [2, 2], list(base_shape) + [1]]
+        for dt in arr_dts:
+            arr = np.asarray((np.arange(int(np.prod(base_shape)) or 1).reshape(base_shape) % 2).astype(dt))
+            if arr.dtype.kind == "c":
+                arr = arr + 1j
+            for ty in tys:
+                for sh in shapes:
+                    try:
+                        r = ui._to_numpy_input(arr, _Meta2(ty, sh))
+                        if r is arr or (r.dtype == arr.dtype and r.shape == arr.shape and np.array_equal(r, arr)):
+                            real = ("Keep",)
+                        elif r.shape == arr.shape + (2,) and arr.dtype.kind == "c" and r.dtype.kind == "f":
+                            real = ("PackTo", r.dtype.name)
+                            if not (np.array_equal(r[..., 0], arr.real.astype(r.dtype)) and np.array_equal(r[..., 1], arr.imag.astype(r.dtype))):
+                                problems.append(f"packing of {dt} changed the values")
+                        elif r.shape == arr.shape and r.dtype != arr.dtype:
+                            real = ("CastTo", r.dtype.name)
+                        else:
+                            real = ("Other", f"{r.dtype.name}{list(r.shape)}")
+                    except ValueError as exc:
+                        real = ("ErrTrailing",) if "trailing dimension of size 2" in str(exc) and "Expected" in str(exc) else \
+                               ("ErrNoPack",) if "Cannot map complex" in str(exc) else ("Other", str(exc))
+                    except Exception as exc:  # noqa: BLE001
+                        real = ("Other", f"{type(exc).__name__}: {exc}")
+                    dist[real[0]] = dist.get(real[0], 0) + 1
+                    # the property, directly: a complex value must not reach a real-typed input with its imaginary part dropped
+                    if arr.dtype.kind == "c" and real[0] == "CastTo" and np.dtype(real[1]).kind == "f":
+                        ctx.violate("feed-coercion:complex-narrowed", f"_to_numpy_input({dt} array, declared {ty!r}, shape {sh}) silently casts to "
+                                    f"{real[1]}: the stored model is run on the real part only while fn sees the complex value",
+                                    {"kind": "coerce", "dtype": dt, "type": ty, "shape": sh, "ndim": ndim})
+                    rows.append((dt, ndim, ty, sh, real))
+    seen = set()
+    ctx.violations[:] = [v for v in ctx.violations if not (v["key"].startswith("feed-coercion:") and (v["key"] in seen or seen.add(v["key"])))]
+
+    def olit(r):
+        if r[0] in ("CastTo", "PackTo"):
+            return f"Some ({r[0]} {_NPDT.get(r[1], 'NOther')})"
+        return f"Some {r[0]}" if r[0] in ("Keep", "ErrTrailing", "ErrNoPack") else "None"
+
+    def shlit(sh):
+        return "None" if sh is None else "(Some [" + "; ".join(f"DInt ({d})" if isinstance(d, int) else "DSym" for d in sh) + "])"
+    head = common.CASES_HEADER + ("From J2O Require Import OrtCoerce.\nOpen Scope string_scope.\n"
+        "Definition oeq_ (a : outcome) (b : option outcome) : bool := match a, b with\n"
+        "  | Keep, Some Keep | ErrTrailing, Some ErrTrailing | ErrNoPack, Some ErrNoPack => true\n"
+        "  | CastTo t, Some (CastTo u) | PackTo t, Some (PackTo u) => npdt_eqb t u | _, _ => false end.\n"
+        "Definition ccase_ := (npdt * nat * option string * option (list dimv) * option outcome)%type.\n"
+        "Definition ccmp_ (c : ccase_) : bool := let '(a, n, ty, sh, r) := c in oeq_ (coerce a n ty sh) r.\n")
+    txt = head
+    chunks = [rows[i:i + 400] for i in range(0, len(rows), 400)]
+    for k, ch in enumerate(chunks):
+        txt += f"Definition cc{k} : list ccase_ := [\n" + ";\n".join(
+            f"({_NPDT.get(dt, 'NOther')}, {nd}%nat, " + ("None" if not isinstance(ty, str) else f'(Some "{ty}")') + f", {shlit(sh)}, {olit(real)})"
+            for dt, nd, ty, sh, real in ch) + "].\n"
+        txt += f"Eval vm_compute in bad_idx_ ccmp_ 0 cc{k}.\n"
+    ok, out = common.coq_eval_file(ctx, "c18_coerce_cases", txt)
+    lists = re.findall(r"=\s*(\[[^\]]*\]|nil)\s*:\s*list nat", out.replace("\n", " "))
+    if not ok or len(lists) != len(chunks):
+        ctx.oblige("tie:OrtCoerce.coerce-vs-real-_to_numpy_input", False, "tie", out[-1500:])
+    else:
+        bad = []
+        for k, ch in enumerate(chunks):
+            l = lists[k]
+            bad += [ch[int(t.replace("%nat", ""))] for t in ([] if l in ("nil", "[]") else l.strip("[]").split(";")) if t.strip()]
+        ctx.oblige(f"tie:OrtCoerce.coerce-equals-real-_to_numpy_input(exhaustive: {len(rows)} combinations)", not bad, "tie",
+                   "" if not bad else "model and implementation differ on " + "; ".join(str(b) for b in bad[:6]))
+    ctx.oblige("tie:_to_numpy_input-packing-keeps-real-and-imaginary-parts", not problems, "tie", "; ".join(problems[:4]))
+    return {"combinations": len(rows), "outcomes": dist}
+
+
 def run(ctx):
     import jax
     import jax2onnx
@@ -643,7 +731,8 @@ def run(ctx):
         "the layout normalisations (NCHW back-transpose requested by outputs_as_nchw, complex re-packing of a trailing "
         "axis of size 2) are part of the statement: the theorem speaks about the ORT value after them",
         "_build_ort_inputs: the routing of caller values to model inputs is modelled (theories/OrtFeed.v [route]) and tied on a stub "
-        "session with identity coercion; the per-value dtype coercion _to_numpy_input is exercised (float32 feed) but not modelled",
+        "session with identity coercion; the per-value coercion _to_numpy_input is modelled (theories/OrtCoerce.v [coerce]) and tied "
+        "EXHAUSTIVELY over its finite decision domain (array dtype x declared type string x shape situation x rank); numpy astype itself is trusted",
     ]
     common.build_props(ctx, "C18", [])
 
@@ -747,6 +836,7 @@ def run(ctx):
         ctx.oblige("tie:temporary_x64-model-evaluated-in-coq(16 runs)", not idx(tm_list), "tie", tm_list)
 
     feed_cov = feed_tie(ctx, ui)
+    feed_cov["coercion"] = coerce_tie(ctx, ui)
 
     verdict_table = {k: sorted(set(v)) for k, v in kinds.items()}
     ctx.level = "proof"
